@@ -151,6 +151,26 @@ def runOp (objs : List Cfg) (i : Nat) (ws : List String) : List Cfg × String :=
     (match cur.clone (match pdOpt into with | some d => d | none => []) with
      | .ok c' => (objs ++ [c'], "-")
      | .error e => (objs, showErr e))
+  | ["UPDP", p, m, kw] =>
+    -- `update(<another Config>)` (known finding C06-update-from-proxy): the argument is iterated as a sequence of
+    -- pairs, i.e. over its KEY STRINGS: key "xy…" sets self["x"] = "y", a key shorter than 2 raises IndexError
+    let path := pathOf p
+    (match cur.apply path .len with
+     | .error e => (objs, showErr e)
+     | .ok _ =>
+       let rec go (c : Cfg) (ks : List Key) : Except String Cfg :=
+         match ks with
+         | [] => .ok c
+         | k :: rest => match k with
+           | a :: b :: _ => (match c.apply path (.setItem [a] (.leaf (.s [b]))) with
+               | .ok (c', _) => go c' rest
+               | .error e => .error (showErr e))
+           | _ => .error "E:IndexError"
+       match go cur (keys (pd m)) with
+       | .error e => (objs, e)
+       | .ok c1 => (match c1.apply path (.update none (pd kw)) with
+           | .ok (c2, o) => (setAt objs i c2, showOut o)
+           | .error e => (objs, showErr e)))
   | _ =>
     match parseOp ws with
     | none => (objs, "bad-op")
@@ -222,6 +242,22 @@ def runOpC (objs : List CState) (hs : List (Nat × Nat × Handle)) (i : Nat) (ws
      | .ok hd => (objs, (h.toNat?.getD 0, i, hd) :: hs.filter (fun x => x.1 != h.toNat?.getD 0),
                   s!"N{(Inv.Heap.cellAt cur.heap hd.addr).length}")
      | .error e => (objs, hs.filter (fun x => x.1 != h.toNat?.getD 0), showErr e))
+  | ["UPDP", p, m, kw] =>
+    let path := pathOf p
+    (match applyRoot cur path .len with
+     | .error e => (objs, hs, showErr e)
+     | .ok _ =>
+       let rec go (c : CState) (ks : List Key) : Except String CState :=
+         match ks with
+         | [] => .ok c
+         | k :: rest => match k with
+           | a :: b :: _ => (match applyRoot c path (.setItem [a] (.leaf (.s [b]))) with
+               | .ok (c', _) => go c' rest
+               | .error e => .error (showErr e))
+           | _ => .error "E:IndexError"
+       match go cur (keys (pd m)) with
+       | .error e => (objs, hs, e)
+       | .ok c1 => finOut (applyRoot c1 path (.update none (pd kw))))
   | "HOP" :: h :: rest =>
     (match hs.find? (fun x => x.1 == h.toNat?.getD 0) with
      | none => (objs, hs, "E:key")
